@@ -4,9 +4,9 @@ package main
 
 func init() {
 	register(&propSpec{
-		ID:    "C13",
-		Level: "other",
-		Run:   runC13,
+		ID:          "C13",
+		Level:       "other",
+		Run:         runC13,
 		Explanation: "Per-operation refinement: a history is a sequence of calls of exported operations; each operation of comp.LRUCache / comp.Line and of the generic cache.LRUCache is reduced by the E-TERM engine (sequence algebra, generic loop summaries) to a normal form over the abstract state (lines MRU-first; order LRU-first + map) and compared syntactically with the same operation of the reference model (spec/comp_cache.go.txt, spec/lru.go.txt). If every operation transforms the state exactly as the model does, every history conforms, by induction on its length.",
 		Assumptions: []string{
 			"slices are modelled by value (sharing of backing arrays between the cache's slice and slices handed out is not modelled)",
